@@ -16,10 +16,18 @@ or left out); and for the nested logit the published generating function
 get_mev_generating_for_nested (value, and its gradient with respect to y_i computed by the
 engine with V_i = ln y_i, y_i free parameters) against the published terms get_mev_for_nested /
 get_mev_for_nested_mu (exp of the term = dG/dy_i of the specification = engine gradient of G).
+
+The names of the nest objects are not part of a model (invariant NamesIrrelevant over the constant Namings:
+all unnamed, all with the same name, the first named like the default name of the second, distinct names):
+nest objects under the other namings must give what the legacy tuples (which carry no names) give, and the
+generating function and its terms are built from nest objects named by each naming in rotation.  Every
+structure keeps ONE nests object per way of writing it for all the model functions, and the models are built
+a second time from the same dictionaries modified in place (the values of the new arguments are required).
 """
 
 from __future__ import annotations
 
+import functools
 import sys
 
 sys.path.insert(0, '/verif')
@@ -32,7 +40,7 @@ PID = 'C06'
 def body(chk: check.Check):
     rt.setup(chk.seed)
     cm.preload()
-    emitted = cm.run_models(chk, chk.tier, kinds=('nl', 'cnl'))
+    emitted = cm.run_models(chk, chk.tier, kinds=('nl', 'cnl'), skip=('session',))
     chk.rule = ('cases emitted by TLC from ChoiceModels.tla (families nl, cnl); a case = one nest structure x parameters x one observation; '
                 'each structure is evaluated through every way of writing it (nest objects, legacy tuples, explicit zero allocations, '
                 'with and without explicit scale) and through the simpler model it reduces to; distinct = distinct cases')
@@ -42,7 +50,7 @@ def body(chk: check.Check):
         for r in recs:
             chk.distinct.add((cm.struct_key(r), repr(r['a']), repr(r['av'])))
         items = cm.groups(recs)
-        results = par.pmap(cm.c06_group, items, chunk=max(4, len(items) // 64), timeout=900)
+        results = par.pmap(functools.partial(cm.c06_group, plan=chk.tier), items, chunk=max(4, len(items) // 64), timeout=900)
         stats[name] = cm.report(chk, name, items, results, samples)
         stats[name]['reducing_cases'] = dict(
             logit=sum(1 for r in recs if r['red'] == 'logit'), nl=sum(1 for r in recs if r['red'] == 'nl'),
@@ -95,6 +103,28 @@ def body(chk: check.Check):
                 st == 'ok' and 'cnl:cnl:one-nest-per-alternative' in val['counts'] and 'cnl:cnlmu:one-nest-per-alternative' in val['counts'],
                 f'clauses={sorted(val["counts"]) if st == "ok" else val}')
 
+    # (6) the names of the nest objects: a specification in which a nest takes the parameter of the nest it shares its name with
+    two = dict(small, consts=dict(small['consts'], NlMuPairs=[('2', '3/2')], TopMus=('1',)))
+    res = cm.run_mutant(two, 'names-matter', ['NamesIrrelevant'])
+    chk.control('ChoiceModels with Mutation = names-matter (nests keyed by name): TLC must report NamesIrrelevant',
+                res.violated == 'NamesIrrelevant', f'violated={res.violated}')
+    # (7) ... and a library that does the same: objects no longer give what the tuples give, published terms no longer the derivative
+    two_nests = next(g for g in groups if len(g[0]['labels']) == 4 and len(cm.nl_members(g[0])) == 2
+                     and len(cm.nl_members(g[0])[0][1]) == 2 and g[0]['mus'] == [[2, 1], [3, 2]] and g[0]['mu'] == [1, 1])
+    st, val = rt.forked(cm.c06_group_patched, two_nests, 'names', plan=chk.tier, gen_naming='clash')
+    chk.control('nested logit terms computed from nests keyed by name: tuple-vs-named-objects and term-vs-specification clauses',
+                st == 'ok' and any(k.endswith(':tuple-vs-named-objects') for k in val['counts'])
+                and 'nl:get_mev_for_nested:term-vs-specification' in val['counts']
+                and not any(k.endswith(':tuple-vs-objects') for k in val['counts']),
+                f'clauses={sorted(val["counts"]) if st == "ok" else val}')
+    # (8) a cross-nested logit that remembers what the dictionaries held at the first construction
+    st, val = rt.forked(cm.c06_group_patched, cg, 'remembers', plan='thorough', parts=('reductions',))
+    chk.control('cross-nested logit that remembers the first content of the dictionaries: second-construction clauses',
+                st == 'ok' and 'cnl:cnl:second-construction-value' in val['counts']
+                and 'cnl:cnl:tuple-vs-objects-second-construction' in val['counts']
+                and not any(k.endswith(':tuple-vs-objects') for k in val['counts']),
+                f'clauses={sorted(val["counts"]) if st == "ok" else val}')
+
     chk.uncovered += [
         'the generating function of the cross-nested logit is not published by the library (only its terms); it is covered through the '
         'probabilities (C05) and the reduction to the nested logit',
@@ -103,6 +133,9 @@ def body(chk: check.Check):
         'published terms of UNAVAILABLE alternatives (the documentation sets G_i = 0 there; the logit kernel ignores them): only available '
         'alternatives are compared; dG/dy_i = 0 is required of the published G for unavailable alternatives',
         'nest structures, parameters and utilities outside the bounds listed for C05',
+        'quick tier: each model function is compared under ONE of the three other namings of the nest objects per structure (rotation over the '
+        'structures) and two functions per structure are built a second time; the generating function is built under one naming per structure '
+        '(all four in rotation); the thorough tier takes all namings / two namings',
     ]
     chk.assumptions += [
         'primitive pow of the term language is interpreted by Python math (vb/terms.py)',
